@@ -23,6 +23,7 @@ TRUSTED_BASE = [
     "the weaver /verif/fv (erasure-checked on every run: stripping the overlay gives back /repo's text byte for byte)",
     "std: Vec, slice iterators, chunks_exact, align_to(_mut), split_at(_mut), f64::{floor,ceil,round} as modelled by CBMC",
     "usize is 64 bit",
+    "CBMC's float 'NaN on ...' checks (production of a NaN, e.g. 0 * inf) are ignored: defined behaviour in Rust, not a panic",
 ]
 
 
